@@ -5,5 +5,4 @@ CONSTANTS Ids = {"a", "b", "c"} Self = "self" Restricted = {"c"} MaxDyn = 2 Hist
 INVARIANTS TypeOK NeverSelfOrRestricted NoDoubleDial DynBudget OneLookup
 PROPERTIES FreshDialsProp NoLookupWhileRunningProp StaticServedProp
 CONSTRAINT Bound
-VIEW View
 CHECK_DEADLOCK FALSE
